@@ -193,4 +193,117 @@ example : needsFeedback (.deduping .sweeping 2 1 3 false) = false := rfl
 example : (runLive (wEnv .patched) (.deduping .sweeping 2 1 3 false) [.propose, .propose, .feedback 0 5, .propose]).hist.length = 2 := by
   decide
 
+/-! ### Continuation of Deduping over Sweeping / seeded Random -/
+
+/-- FULL statement of the property's second sentence for the wrappers: after recovery,
+`Deduping(Sweeping)` and `Deduping(Random(seed))` continue with exactly the proposals the
+uninterrupted instance makes. -/
+def C15_continue_dedup_Full (env : Env) : Prop :=
+  ∀ (inner : Algo), (inner = .sweeping ∨ ∃ seed, inner = .random seed true) →
+    ∀ (hid md ma : Nat) (au : Bool) (run : List Event) (m : Nat),
+      ∃ s', recover env (.deduping inner hid md ma au) (setup (.deduping inner hid md ma au))
+              (runLive env (.deduping inner hid md ma au) run).hist = .ok s'
+        ∧ (proposeN env (.deduping inner hid md ma au) m s').1
+            = (proposeN env (.deduping inner hid md ma au) m (runLive env (.deduping inner hid md ma au) run).st).1
+
+/-- Exclusion predicate (Sweeping): the sweep position of the live instance is the last persisted
+proposal — true unless the last `propose` of the run raised StopIteration after skipping duplicates
+(a failed `propose` moves the sweep but leaves no trace in the history). -/
+def SweepAtLast (l : Live) : Prop :=
+  ∃ np nf a b c, l.st = .deduping np nf (.sweeping a b (lastOr none l.hist)) c
+
+/-- Exclusion predicate (Random): the live PRNG position equals the number of persisted proposals —
+i.e. no attempt was ever rejected as a duplicate (finding F34 is exactly the other case). -/
+def DrawsAtHistory (l : Live) : Prop :=
+  ∃ np nf a b c, l.st = .deduping np nf (.random a b l.hist.length) c
+
+theorem C15_continue_dedup_sweeping_partial (env : Env) (hq : env.q.dedupForwardsReplay = false)
+    (hid md ma : Nat) (au : Bool) (run : List Event) (m : Nat)
+    (hs : SweepAtLast (runLive env (.deduping .sweeping hid md ma au) run)) :
+    ∃ s', recover env (.deduping .sweeping hid md ma au) (setup (.deduping .sweeping hid md ma au))
+            (runLive env (.deduping .sweeping hid md ma au) run).hist = .ok s'
+      ∧ (proposeN env (.deduping .sweeping hid md ma au) m s').1
+          = (proposeN env (.deduping .sweeping hid md ma au) m (runLive env (.deduping .sweeping hid md ma au) run).st).1 := by
+  obtain ⟨⟨si, hst⟩, hkeyed⟩ := live_dedup_nofb env .sweeping hid md ma au rfl run
+  obtain ⟨np, nf, a, b, c, hs⟩ := hs
+  rw [hs] at hst
+  injection hst with h1 h2 h3 h4
+  have hrec : recover env (.deduping .sweeping hid md ma au) (setup (.deduping .sweeping hid md ma au))
+      (runLive env (.deduping .sweeping hid md ma au) run).hist
+      = .ok (.deduping (0 + (runLive env (.deduping .sweeping hid md ma au) run).hist.length)
+          (0 + fedCount (runLive env (.deduping .sweeping hid md ma au) run).hist)
+          (.sweeping (0 + (runLive env (.deduping .sweeping hid md ma au) run).hist.length)
+            (0 + fedCount (runLive env (.deduping .sweeping hid md ma au) run).hist)
+            (lastOr none (runLive env (.deduping .sweeping hid md ma au) run).hist))
+          (cacheOfKeys [] (keysOf (runLive env (.deduping .sweeping hid md ma au) run).hist))) := by
+    simp only [recover, hq, Bool.false_eq_true, ↓reduceIte, setup, baseRecover_sweeping]
+    rw [baseRecover_dedup_nofb env .sweeping hid md ma au hq rfl _ hkeyed]
+  refine ⟨_, hrec, ?_⟩
+  rw [hs, h1, h2, h4]
+  simp only [Nat.zero_add]
+  exact proposeN_dedup_sweeping_counters env hid md ma au m _ _ _ _ _ _ _ _
+
+theorem C15_continue_dedup_random_partial (env : Env) (hq : env.q.dedupForwardsReplay = false)
+    (seed hid md ma : Nat) (au : Bool) (run : List Event) (m : Nat)
+    (hs : DrawsAtHistory (runLive env (.deduping (.random seed true) hid md ma au) run)) :
+    ∃ s', recover env (.deduping (.random seed true) hid md ma au) (setup (.deduping (.random seed true) hid md ma au))
+            (runLive env (.deduping (.random seed true) hid md ma au) run).hist = .ok s'
+      ∧ (proposeN env (.deduping (.random seed true) hid md ma au) m s').1
+          = (proposeN env (.deduping (.random seed true) hid md ma au) m
+              (runLive env (.deduping (.random seed true) hid md ma au) run).st).1 := by
+  obtain ⟨⟨si, hst⟩, hkeyed⟩ := live_dedup_nofb env (.random seed true) hid md ma au rfl run
+  obtain ⟨np, nf, a, b, c, hs⟩ := hs
+  rw [hs] at hst
+  injection hst with h1 h2 h3 h4
+  have hrec : recover env (.deduping (.random seed true) hid md ma au) (setup (.deduping (.random seed true) hid md ma au))
+      (runLive env (.deduping (.random seed true) hid md ma au) run).hist
+      = .ok (.deduping (0 + (runLive env (.deduping (.random seed true) hid md ma au) run).hist.length)
+          (0 + fedCount (runLive env (.deduping (.random seed true) hid md ma au) run).hist)
+          (.random (0 + (runLive env (.deduping (.random seed true) hid md ma au) run).hist.length)
+            (0 + fedCount (runLive env (.deduping (.random seed true) hid md ma au) run).hist)
+            (0 + (runLive env (.deduping (.random seed true) hid md ma au) run).hist.length))
+          (cacheOfKeys [] (keysOf (runLive env (.deduping (.random seed true) hid md ma au) run).hist))) := by
+    simp only [recover, hq, Bool.false_eq_true, ↓reduceIte, setup, baseRecover_random]
+    rw [baseRecover_dedup_nofb env (.random seed true) hid md ma au hq rfl _ hkeyed]
+  refine ⟨_, hrec, ?_⟩
+  rw [hs, h1, h2, h4]
+  simp only [Nat.zero_add]
+  exact proposeN_dedup_random_counters env seed true hid md ma au m _ _ _ _ _ _ _ _
+
+/-- F34 (also on the repaired source): the PRNG draws 0 0 1 0 2 …; the second proposal rejects one
+duplicate, so the live stream is at position 3 and the recovered one at 2; with two attempts per
+proposal the uninterrupted instance proposes 2 next while the recovered one raises StopIteration. -/
+def f34Env : Env :=
+  { space := [0, 1, 2, 3, 4, 5], draw := fun _ pos => [0, 0, 1, 0, 2, 3, 4, 5].getD pos 0,
+    hash := fun _ d => d, repro := fun _ _ _ => [], update := fun p _ => p, q := .patched }
+
+def f34Algo : Algo := .deduping (.random 7 true) 0 1 2 false
+
+theorem C15_F34_counterexample :
+    (proposeN f34Env f34Algo 1 (runLive f34Env f34Algo [.propose, .propose]).st).1
+        = [.ok { dna := 2, key := some 2 }]
+    ∧ (recover f34Env f34Algo (setup f34Algo) (runLive f34Env f34Algo [.propose, .propose]).hist).map
+        (fun s => (proposeN f34Env f34Algo 1 s).1) = .ok [.error .stop] := by
+  decide
+
+theorem C15_continue_dedup_Full_false : ¬ C15_continue_dedup_Full f34Env := by
+  intro h
+  obtain ⟨s', h1, h2⟩ := h (.random 7 true) (Or.inr ⟨7, rfl⟩) 0 1 2 false [.propose, .propose] 1
+  have e1 := C15_F34_counterexample.1
+  have e2 := C15_F34_counterexample.2
+  unfold f34Algo at e1 e2
+  rw [h1] at e2
+  simp only [Except.map, Except.ok.injEq] at e2
+  rw [e1, e2] at h2
+  cases h2
+
+/-! Non-vacuity of the exclusion predicates: runs with rejected duplicates / feedback satisfying them. -/
+def exEnv : Env := { wEnv .patched with hash := fun _ d => d / 2 }
+/-- 0 accepted, 1 rejected (same key as 0), 2 accepted, feedback, 3 rejected, 4 accepted. -/
+example : SweepAtLast (runLive exEnv (.deduping .sweeping 1 1 3 false)
+    [.propose, .propose, .feedback 0 5, .propose]) :=
+  ⟨3, 1, 5, 0, [(0, [none]), (1, [none]), (2, [none])], by decide⟩
+example : DrawsAtHistory (runLive f34Env f34Algo [.propose, .feedback 0 3]) :=
+  ⟨1, 1, 1, 0, [(0, [none])], by decide⟩
+
 end Pg.C15
